@@ -1115,4 +1115,285 @@ theorem for_sim (hfn : P.n ≤ fuel) (hfr : P.row.length ≤ fuel) (hea : ea = i
     exact ih f' (i + 1) _ _ R' (by rw [hi']; push_cast; rfl) hqs' (by push_cast; omega) (by omega) he
 end For
 
+
+/-! ### the complete routine -/
+
+theorem buildPts_facts (P : Params) : ∀ (cnt i : Nat) (m : St), 1 ≤ i → m.err = none →
+    (∀ j, j < i → (m.pts j).isSome = true) → (buildPts P cnt i m).err = none →
+    (buildPts P cnt i m).lenList = m.lenList ∧ (cnt = 0 ∨ i + cnt ≤ P.n) ∧
+    ∀ j, j < i + cnt → ((buildPts P cnt i m).pts j).isSome = true := by
+  intro cnt
+  induction cnt with
+  | zero => intro i m _ _ hp _; exact ⟨rfl, Or.inl rfl, fun j hj => hp j (by omega)⟩
+  | succ cnt ih =>
+    intro i m h1 he0 hp he
+    obtain ⟨h, o, _, hin, ho, hstep⟩ := buildPts_inv P cnt i m he0 he
+    rw [hstep] at he ⊢
+    obtain ⟨a, a', b⟩ := ih (i + 1) (ptsd m i P.row[i - 1] o) (by omega) he0
+      (by
+        intro j hj
+        simp only [ptsd, SqiModel.ThetaChain.upd]
+        by_cases hji : j = i
+        · simp [hji]
+        · simp only [hji, if_false]; exact hp j (by omega)) he
+    exact ⟨a, Or.inr (by omega), fun j hj => b j (by omega)⟩
+
+theorem setLenList_ok (s : St) (he : s.err = none) :
+    setLenList s = { s with lenList := (s.index : Int) + 1,
+                            trace := s.trace ++ [.lenList ((s.index : Int) + 1) s.index s.lenCount] } := by
+  simp [setLenList, he, St.emit]
+
+theorem finalSteps_err (P : Params) (s : St) (h : s.err.isSome = true) : finalSteps P s = s := by
+  simp [finalSteps, h]
+theorem glueStep_err (P : Params) (s : St) (h : s.err.isSome = true) : glueStep P s = s := by
+  simp [glueStep, h]
+theorem setLenList_err (s : St) (h : s.err.isSome = true) : setLenList s = s := by
+  simp [setLenList, h]
+
+theorem err_none_of {α : Type} (f : St → St) (s : St) (hf : ∀ s, s.err.isSome = true → f s = s)
+    (h : (f s).err = none) : s.err = none := by
+  cases hq : s.err with
+  | none => rfl
+  | some e => rw [hf s (by simp [hq])] at h; simp [hq] at h
+
+theorem step_live2 (f : ThetaSt OSt → ThetaSt OSt) (k : ThetaSt OSt) (hf : k.fault = none) (hb : k.obs.bad = false) :
+    ThetaSt.step obs f k = f k := step_live f k hf hb
+
+/-- what is claimed about a complete run -/
+structure Final (P : Params) (k : ThetaSt OSt) (m : St) : Prop where
+  kf : k.fault = none
+  kb : k.obs.bad = false
+  me : m.err = none
+  ix : k.index = (m.index : Int)
+  ll : k.len_list = m.lenList
+  lg : (k.obs.dbls, k.obs.steps, k.obs.kers) = logs P.n P.eightAbove m.trace
+
+section Top
+variable (P : Params) (oracle : Nat → Bool) (fuel : Nat) (ea : Int)
+
+theorem skel_refines (hfn : P.n + 11 ≤ fuel) (hfr : P.row.length ≤ fuel) (hea : ea = if P.eightAbove then 1 else 0)
+    (he : (chain P).err = none) :
+    Final P (theta_chain_comput_strategy obs P.row oracle fuel P.n ea (ThetaSt.init (OSt.init P.kexp))) (chain P) := by
+  have hn : ¬ P.n ≤ 1 := by
+    intro h; simp [chain, h, St.fail] at he
+  unfold chain at he ⊢
+  simp only [hn, if_false] at he ⊢
+  have hadj := adj_cases P
+  have hn1 : (0 : Int) < (P.n : Int) - 1 := by omega
+  have hn0 : (0 : Int) < (P.n : Int) := by omega
+  unfold theta_chain_comput_strategy
+  simp only [step_live2, ThetaSt.init, OSt.init, obs_ev, EvKind.vla, ev_vla_s, hn1, hn0]
+  -- the first while
+  have hadjv : (2 : Int) * (1 - ea) = (P.adj : Int) := by
+    rcases hadj with ⟨h1, h2⟩ | ⟨h1, h2⟩ <;> rw [hea, h1, h2] <;> rfl
+  rw [hadjv]
+  have eF : (forLoop P P.m.toNat 0 (prelude P (initSt P))).err = none :=
+    err_none_of (α := Unit) _ _ (finalSteps_err P) he
+  have e1 : (prelude P (initSt P)).err = none :=
+    err_none_of (α := Unit) _ _ (forLoop_err P P.m.toNat 0) eF
+  unfold prelude at e1 eF he ⊢
+  simp only [] at e1 eF he ⊢
+  have eB := err_none_of (α := Unit) _ _ (glueStep_err P) e1
+  have eS := err_none_of (α := Unit) _ _ (buildPts_err P _ 1) eB
+  have eP := err_none_of (α := Unit) _ _ setLenList_err eS
+  generalize hX : ThetaSt.mk _ _ _ _ _ _ _ _ _ _ = X
+  have hl0 := loop0 P oracle fuel ea fuel X (initSt P) (by rw [← hX]) (by rw [← hX]) rfl (by rw [← hX]; rfl)
+    (by rw [← hX]; rfl) (by rw [← hX]) (by simp [initSt]; omega) eP
+  obtain ⟨l1, l2, l3, l4, l5, l6⟩ := hl0
+  erw [l1]
+  subst hX
+  have hkx : (0 : Int) < (P.n : Int) ∧ True := ⟨hn0, trivial⟩
+  simp only [step_live2, obs_ev, EvKind.vla, EvKind.copyIn, ev_vla_s, ev_copyIn_s, OSt.inb, OSt.put, IArr.new, IArr.inb,
+    IArr.set, hn0, hn1, Int.le_refl, decide_true, Bool.and_true, Bool.true_and, if_true, if_false, Int.reduceEq,
+    ite_true, ite_false]
+  generalize hX : ThetaSt.mk _ _ _ _ _ _ _ _ _ _ = X
+  have hs2 := setLenList_ok _ eP
+  have R1 : RelQ P (fun _ => none) X (setLenList (phase1 P (initSt P))) := by
+    rw [hs2, ← hX]
+    constructor
+    · rfl
+    · rfl
+    · exact eP
+    · rfl
+    · rfl
+    · rfl
+    · rfl
+    · rfl
+    · intro i
+      rw [l2]
+      simp only [initSt]
+      by_cases h : i = 0
+      · subst h; rfl
+      · have : ¬ (i : Int) = 0 := by omega
+        simp [h, this]
+    · simp
+    · simp
+    · simp
+    · simp
+    · simp
+    · intro i
+      rw [l3]
+      simp only [initSt]
+      by_cases h : i = 0
+      · subst h; simp
+      · have : ¬ (i : Int) = 0 := by omega
+        simp [h, this]
+    · intro i
+      rw [l3]
+      simp only [initSt]
+      by_cases h : i = 0
+      · subst h; simp
+      · have : ¬ (i : Int) = 0 := by omega
+        simp [h, this]
+    · intro i; rfl
+    · intro i; rfl
+    · rfl
+    · simp only [logs_append, l6]
+      simp [logs, initSt, mDbls, mSteps, mKers]
+  have hBf := buildPts_facts P (setLenList (phase1 P (initSt P))).index 1 (setLenList (phase1 P (initSt P))) (by omega) eS
+    (by
+      intro j hj
+      have : j = 0 := by omega
+      subst this
+      rw [hs2]; simp only []; rw [l3]; simp [initSt]) eB
+  have RB := pts_sim P oracle fuel ea (fun _ => none) (setLenList (phase1 P (initSt P))).index fuel 0 X _ R1
+    (by rw [← hX]; rfl) (by rw [hs2]; simp only []; omega) (by rcases hBf.2.1 with h | h <;> omega) eB
+  generalize hkB : whileF _ _ _ _ fuel X = kB at RB ⊢
+  generalize hmB : buildPts P (setLenList (phase1 P (initSt P))).index 1 (setLenList (phase1 P (initSt P))) = mB
+    at RB hBf eB e1 eF he ⊢
+  clear hkB hX R1
+  -- the gluing step
+  obtain ⟨c, kk, hc, hcn, hpk, hglue⟩ := glueStep_inv P mB RB.me e1
+  have hkf := RB.kf
+  have hkb := RB.kb
+  have hll : kB.len_list = (c : Int) + 1 := by rw [RB.ll, hc]
+  have ha1 : kB.obs.arr 1 (c : Int) = some kk := by rw [RB.a1, hpk]
+  have ha2 : kB.obs.arr 2 (c : Int) = some kk := by rw [RB.a2, hpk]
+  have hs1 := RB.s1
+  have hs2' := RB.s2
+  have hc0 : (0 : Int) ≤ (c : Int) := by omega
+  have hc1 : (c : Int) < (P.n : Int) := by omega
+  simp only [step_live2, hkf, hkb, obs_ev, EvKind.read, ev_read_s, OSt.inb, hll, Int.add_sub_cancel, ha1, ha2, hs1, hs2',
+    hc0, hc1, decide_true, Bool.and_true, Option.isSome_some, Option.getD_some]
+  rw [hglue] at eF he ⊢
+  generalize hX : ThetaSt.mk _ _ _ _ _ _ _ _ _ _ = X2
+  generalize hmG : St.mk _ _ _ _ _ _ _ _ = mG at eF he ⊢
+  have hBl : mB.lenList = ((setLenList (phase1 P (initSt P))).index : Int) + 1 := by
+    rw [hBf.1, hs2]
+  have hci : c = (setLenList (phase1 P (initSt P))).index := by omega
+  have RG0 : RelQ P (fun j => if j < 0 then mG.q j else none) X2 mG := by
+    rw [← hX, ← hmG]
+    constructor
+    · rfl
+    · rfl
+    · exact RB.me
+    · exact RB.ix
+    · rfl
+    · exact RB.lc
+    · exact RB.ad
+    · exact RB.lvs
+    · exact RB.lvg
+    · exact RB.s1
+    · exact RB.s2
+    · exact RB.s3
+    · exact RB.s4
+    · exact RB.s5
+    · exact RB.a1
+    · exact RB.a2
+    · intro i; simp [RB.a3]
+    · intro i; simp [RB.a4]
+    · exact RB.tg
+    · have := RB.lg
+      simp only [logs, Prod.mk.injEq] at this
+      simp [logs_append, this.1, this.2.1, this.2.2, logs, mDbls, mSteps, mKers]
+  have RD := glue_sim P oracle fuel ea c fuel 0 X2 mG RG0 (by rw [← hX]; rfl) (by rw [← hmG]; simp) (by omega) (by omega)
+    (by
+      intro j hj
+      have hp := hBf.2.2 j (by omega)
+      obtain ⟨v, hv⟩ := Option.isSome_iff_exists.1 hp
+      refine ⟨v, ?_, ?_⟩
+      · rw [← hmG]; exact hv
+      · rw [← hmG]
+        have : (j : Int) < (c : Int) := by omega
+        simp [this, hv])
+  have hg : (fun j => if j < 0 + c then mG.q j else none) = mG.q := by
+    funext j
+    by_cases hj : j < c
+    · simp [hj]
+    · rw [← hmG]
+      have : ¬ (j : Int) < (c : Int) := by omega
+      simp [hj, this]
+  rw [hg] at RD
+  generalize hkD : whileF _ _ _ _ fuel X2 = kD at RD ⊢
+  have hqsG : Qs mG := by
+    intro j hj
+    rw [← hmG] at hj ⊢
+    simp only [] at hj
+    have hp := hBf.2.2 j (by omega)
+    obtain ⟨v, hv⟩ := Option.isSome_iff_exists.1 hp
+    simp [hj, hv]
+  clear hkD hX RG0 hg
+  -- the main loop
+  have hn4 : P.eightAbove = false → 4 ≤ P.n := by
+    intro h
+    by_cases h4 : 4 ≤ P.n
+    · exact h4
+    · exfalso
+      have : idxOK ((P.n : Int) - 4) (P.n - 1) = false := by simp [idxOK]; omega
+      simp [finalSteps, eF, h, this, St.fail] at he
+  have hm : P.m = (P.n : Int) - 1 - (P.adj : Int) := rfl
+  have hm0 : (0 : Int) ≤ P.m := by
+    rcases hadj with ⟨h1, h2⟩ | ⟨h1, h2⟩
+    · omega
+    · have := hn4 h1; omega
+  rw [step_live _ kD RD.kf RD.kb]
+  rw [step_live _ { kD with i := 0 } RD.kf RD.kb]
+  have R3 : Rel P { kD with i := 0 } mG :=
+    ⟨RD.kf, RD.kb, RD.me, RD.ix, RD.ll, RD.lc, RD.ad, RD.lvs, RD.lvg, RD.s1, RD.s2, RD.s3, RD.s4, RD.s5, RD.a1, RD.a2,
+      RD.a3, RD.a4, RD.tg, RD.lg⟩
+  obtain ⟨RE, _⟩ := for_sim P oracle fuel ea (by omega) hfr hea P.m.toNat fuel 0 _ mG R3 rfl hqsG (by omega) (by omega) eF
+  generalize hkE : whileF _ _ _ _ fuel _ = kE at RE ⊢
+  generalize hmF : forLoop P P.m.toNat 0 mG = mF at RE eF he ⊢
+  clear hkE R3
+  have hkf := RE.kf
+  have hkb := RE.kb
+  have h5 := RE.s5
+  have hn2a : (0 : Int) ≤ (P.n : Int) - 2 := by omega
+  have hn2b : (P.n : Int) - 2 < (P.n : Int) - 1 := by omega
+  have h2le : (2 : Int) ≤ (P.n : Int) := by omega
+  rcases hadj with ⟨h1, h2⟩ | ⟨h1, h2⟩
+  · have hea1 : ea = 1 := by rw [hea, h1]; rfl
+    subst hea1
+    rw [finalSteps_eight P mF RE.me h1]
+    constructor <;>
+      simp [ThetaSt.step, ThetaSt.live, obs_ok, obs_ev, hkf, hkb, truthy, EvKind.split, ev_split_s, OSt.inb, h5, hn2a, hn2b, h2le,
+        RE.me, RE.ix, RE.ll, RE.lg]
+  · have hea0 : ea = 0 := by rw [hea, h1]; rfl
+    subst hea0
+    have hn4' := hn4 h1
+    have hidx : idxOK ((P.n : Int) - 4) (P.n - 1) = true := by simp [idxOK]; omega
+    have h4le : (4 : Int) ≤ (P.n : Int) := by omega
+    have h3le : (3 : Int) ≤ (P.n : Int) := by omega
+    have hnpos : 0 < P.n := by omega
+    have hs3 := RE.s3
+    have hs4 := RE.s4
+    have htg := RE.tg
+    cases hq0 : mF.q 0 with
+    | none => simp [finalSteps, RE.me, h1, hidx, hq0, St.fail] at he
+    | some o =>
+      have hfin : finalSteps P mF = mF.emit (.fin ((P.n : Int) - 4) ((P.n : Int) - 3) ((P.n : Int) - 2) (o - 1) (o - 2)) := by
+        simp [finalSteps, RE.me, h1, hidx, hq0]
+      rw [hfin]
+      have ha3 : kE.obs.arr 3 0 = some o := by simpa [hq0] using RE.a3 0
+      have ha4 : kE.obs.arr 4 0 = some o := by simpa [hq0] using RE.a4 0
+      have hlg := RE.lg
+      simp only [logs, Prod.mk.injEq] at hlg
+      constructor <;>
+        simp [ThetaSt.step, ThetaSt.live, obs_ok, obs_ev, hkf, hkb, truthy, EvKind.split, EvKind.loadR, EvKind.evalR,
+          EvKind.step4, EvKind.step2, ev_split_s, ev_loadR3_s, ev_loadR4_s, ev_loadR5_s, ev_evalR_s, ev_step4_s,
+          ev_step2_s, OSt.inb, h5, hs3, hs4, htg, hn0, hnpos, h2le, h3le, h4le, ha3, ha4, St.emit,
+          RE.me, RE.ix, RE.ll, logs_append, logs, mSteps, mKers, mDbls, hlg.1, hlg.2.1, hlg.2.2]
+      omega
+end Top
+
 end SqiProofs.SkelThetaSim
